@@ -16,9 +16,9 @@ type timer struct {
 	deadline *Term
 	period   *Term // ticker
 	active   bool
-	fn       value     // AfterFunc
-	ch       *chanObj  // Timer/Ticker channel
-	sleeper  *thread   // time.Sleep
+	fn       value    // AfterFunc
+	ch       *chanObj // Timer/Ticker channel
+	sleeper  *thread  // time.Sleep
 	fired    bool
 	obj      *value // *time.Timer / *time.Ticker cell
 	origin   string
